@@ -307,8 +307,10 @@ def num_add(self, a, b, node, what='add', sub=False):
     r.nonneg = (a.nonneg and b.nonneg) and not sub
     r.ex = None
     r.sx = None
+    r.sz = sz_join(a, b) if what in ('add', 'store', 'concat') else sp.Integer(1)
     if a.ex is not None and b.ex is not None:
         r.ex = (a.ex - b.ex) if sub else (a.ex + b.ex)
+        r.sz = r.ex.to_sympy() if not r.ex.is_const() else sp.Integer(1)
     elif r.shape == () and what == 'add':
         sa, sb = sym_of(a), sym_of(b)
         if sa is not None and sb is not None:
@@ -364,6 +366,17 @@ def num_mul(self, a, b, node, div=False, va=None, vb=None):
             self.conflict('mul', 'nfft', 'value scaled by %s, a function of NFFT that is not proportional to NFFT' % x.ex, node)
     for c in COMPS:
         r.deg[c] = dadd(a.deg[c], dneg(b.deg[c]) if div else b.deg[c])
+    if a.sz is None or b.sz is None:
+        r.sz = None
+    elif b.sz is sp.S.One:
+        r.sz = a.sz
+    elif a.sz is sp.S.One and not div:
+        r.sz = b.sz
+    else:
+        try:
+            r.sz = sp.cancel(a.sz / b.sz) if div else sp.cancel(a.sz * b.sz)
+        except Exception:
+            r.sz = None
     r.nonneg = a.nonneg and b.nonneg
     if a.ex is not None and b.ex is not None:
         if div:
@@ -413,6 +426,15 @@ def num_pow(self, a, b, node, vb=None):
     else:
         for c in COMPS:
             r.deg[c] = dmul(a.deg[c], k)
+    if a.sz is sp.S.One:
+        r.sz = sp.S.One
+    elif a.sz is None or k is None:
+        r.sz = None
+    else:
+        try:
+            r.sz = sp.powsimp(a.sz ** (k if _sym(k) else sp.Rational(F(k).numerator, F(k).denominator)))
+        except Exception:
+            r.sz = None
     even = k is not None and not _sym(k) and F(k).denominator == 1 and int(k) % 2 == 0
     r.rv = True if a.rv else None
     r.nonneg = a.nonneg or (even and bool(a.rv))
